@@ -63,6 +63,9 @@ CHECKS = {
  "C20": ("stateless model checking of the real implementation: every interleaving with <= 2 (thorough 3) preemptions of 2-3 goroutines calling publish / subscribe / unsubscribe on one registry (6 initial registries x all pairs and triples of single-call threads and pairs of two-call threads x Resolver / reflection events), under the cooperative scheduler over the sync shim; oracle = the stated guarantees from logical-clock logs, final registry explained by some real-time-consistent sequential order, full linearizability (brute force) for failure-free histories; plus the free-running race-detector pass",
          "All schedules within the preemption bound are executed and every one is checked against the guarantees the property lists; detection was demonstrated on a change that cleans up failed subscribers without the identity re-check (double clean-up found in 7630 schedules).",
          "Lock-only choice points; preemption bounded, not unbounded; race pass is sampling.", "5.20"),
+ "C03": ("bounded-exhaustive enumeration of inputs on the real entry points: all token strings <= 4 (thorough 5) over a 39-token executable alphabet under three resolver strategies, <= 4 (5) over a 36-token SDL alphabet, <= 5 (6) over a value alphabet; every single-token edit of a corpus of 29 requests and 14 schemas; all byte strings <= 2 (3) over 23 special bytes in 5 placements; every reader fault kind at every Read offset; every variable-shape assignment; printing of whatever loaded. Each case numbered and announced through a shared mapping, so fatal errors and hangs are observations and the worker is restarted past them",
+         "Within the stated lengths the input spaces are enumerated completely; the oracle is only that the call returns.",
+         "Hang = case counter stalled for 60 s; deep-nesting ladders beyond the corpus are not enumerated.", "5.3"),
 }
 
 NOT_YET = {}
